@@ -16,7 +16,7 @@ open Pko.Kube Pko.Model.Phase Pko.Model.ObjectSet Pko.Model.Status
 
 /-- reset the per-pass ghost state and arm the crash point. -/
 def arm (s : Sys) (budget : Option Nat) : Sys :=
-  { s with w := { s.w with gw := 0, crashAt := budget, snap := none }, trail := [] }
+  { s with w := { s.w with gw := 0, crashAt := budget, snap := none, snapW := none }, trail := [] }
 
 /-- the ObjectSets after the last of PKO's writes on them that was among the first `c` requests. -/
 def setsAt (init : String → Option OSet) (trail : List (Nat × (String → Option OSet))) (c : Nat) :
@@ -31,6 +31,9 @@ def crashState (s0 s1 : Sys) (c : Nat) : Sys :=
   match s1.w.snap with
   | none => s1                                   -- fewer than `c + 1` requests: nothing was cut off
   | some (store, phases) =>
-    { s0 with w := { s0.w with store := store, phases := phases }, sets := setsAt s0.sets s1.trail c }
+    -- (in-memory: the dynamic cache's registrations as they were at that request; a process that
+    -- dies there loses them — the driver restarts it, `World.restart`)
+    { s0 with w := { s0.w with store := store, phases := phases, watched := s1.w.snapW.getD s0.w.watched },
+              sets := setsAt s0.sets s1.trail c }
 
 end Pko.Model.Converge
